@@ -57,6 +57,7 @@ def run(tier):
     rule_R3(res, prog, cg, c)
     rule_R4(res, prog, cg, c)
     rule_R5(res, prog)
+    rule_R6(res, prog, cg)
     return res.finish()
 
 
@@ -489,3 +490,77 @@ def rule_R5(res, prog):
                          "(branch points: %s): spliced records with non-uniform padding are accepted" % (
                              fn.name, ln, path[-1][1], [p[1] for p in path[-6:-1]]), file=fn.relfile, line=ln)
         res.instance("C02.R5", "%s: padLen read at line %s -> pad-byte comparison -> verifyMac" % (fn.name, ln), path is None, finding=f_)
+
+
+def rule_R6(res, prog, cg):
+    """Replay / reordering of AEAD records is detected only because the implicit read sequence number advances with
+    every record that opened successfully: in every AEAD open callback of the cipher-suite table each path from the
+    successful open primitive to a success return increments sec.remSeq (DTLS version edges exempt: the explicit epoch /
+    sequence number and the replay window take that role).  (The HMAC suites' read counter is advanced by the MAC helper,
+    which C17.R1 covers for both directions.)"""
+    from sa import cfgutil as cu
+    from sa.ir import walk
+    from rules.C17 import ParamEffects, field_of, REMSEQ
+    res.rule("C02.R6", "every successful AEAD open advances the read sequence number before returning success")
+    pe = ParamEffects(prog)
+    g, rows = tables.cipher_rows(prog)
+    fl = tables.crypto_flags(prog)
+    dtls_mask = prog.enums.get("v_dtls_any") or 0
+    OPEN_PRIMS = {"psAesDecryptGCM", "psChacha20Poly1305IetfDecrypt", "psAesDecryptGCMtagless", "CLS_DecryptAuthTls13"}
+    names = set()
+    for r in rows:
+        if isinstance(r.get("decrypt"), str) and (r["flags"] or 0) & (fl["GCM"] | fl["CHACHA"]):
+            names.add(r["decrypt"])
+    for fn_ in prog.functions.values():
+        if any(c.get("fn") in OPEN_PRIMS for b, ln, c in fn_.calls()) and \
+                any(n.get("k") == "mem" and (n.get("r"), n.get("f")) == REMSEQ for b, ln, n in fn_.nodes()):
+            names.add(fn_.name)
+
+    def dtls_true_edge(b, k):
+        t = b.get("term")
+        if k != 0 or t is None or "c" not in t:
+            return False
+        c = strip(t["c"])
+        if c is None or c.get("k") != "bin" or c["op"] != "&":
+            return False
+        l, r = strip(c["l"]), strip(c["r"])
+        return l is not None and l.get("k") == "mem" and l.get("f") == "activeVersion" and r is not None and r.get("k") == "int" \
+            and (r["v"] & dtls_mask) and not (r["v"] & ~dtls_mask)
+    n = 0
+    for name in sorted(names):
+        fn = prog.fn(name)
+
+        def is_inc(x, fn=fn):
+            for nd in walk(x):
+                if nd.get("k") == "un" and "++" in nd["op"] and field_of(nd["e"]) == REMSEQ:
+                    return True
+                if nd.get("k") == "call" and nd.get("fn"):
+                    t = prog.resolve_call(fn, nd["fn"])
+                    if t is not None:
+                        for j, effs in pe.eff.get(t.qname, {}).items():
+                            if "inc" in effs and j < len(nd.get("a", [])) and field_of(nd["a"][j]) == REMSEQ:
+                                return True
+            return False
+        sites = cu.find_sites(fn, lambda nd: nd.get("k") == "call" and nd.get("fn") in OPEN_PRIMS)
+        if not sites:
+            raise AnalysisBroken("C02.R6: %s no longer calls an AEAD open primitive" % name)
+        gf = cu.guard_facts(fn)
+
+        def tgt(x, fn=fn, gf=gf):
+            for b in fn.blocks:
+                for el in b["el"]:
+                    if el["x"] is x:
+                        return cu.success_ret(x) and not cu.ret_is_error(gf, b["id"], x)
+            return cu.success_ret(x)
+        for (bid, idx, ln, node) in sites:
+            n += 1
+            path = cu.escapes(fn, (bid, idx), is_inc, exempt_edge=dtls_true_edge, is_target=tgt)
+            f_ = None
+            if path is not None:
+                f_ = Finding(PROP, "C02.R6", name, "success return after %s without advancing remSeq" % node["fn"],
+                             "%s: a path from %s (line %s) reaches the success return at line %s without incrementing sec.remSeq: the "
+                             "same record (or a reordered one) opens again under the unchanged sequence number" % (
+                                 name, node["fn"], ln, path[-1][1]), file=fn.relfile, line=ln)
+            res.instance("C02.R6", "%s: %s at line %s -> remSeq advanced before success" % (name, node["fn"], ln), path is None, finding=f_)
+    res.floor("C02.R6", 3)
+
